@@ -147,12 +147,10 @@ ModelOK ==
               /\ (acc = "yes" /\ Len(v.call.args) = Len(decl.inputs) /\ WellTyped(Attr, decl, v.call)
                     /\ v.call.beh.k # "panic") =>
                    LET et == IF decl.err THEN ResultTok(v.call, Len(sig.results)) ELSE 0
-                       typednil == et = TypedNilTok
-                       failed == et # 0 /\ ~typednil IN
+                       failed == et # 0 IN
                    \* whatever the handler's error is or wraps, it is reported as the function's,
                    \* with that very value as its source
                    /\ failed => o = FnOutcome("error", et, TRUE)
-                   /\ typednil => o.kind = "open_nilerr"
                    /\ (et = 0 /\ HasValue(decl)) => o = FnOutcome("value", ResultTok(v.call, 1), FALSE)
                    /\ (et = 0 /\ ~HasValue(decl)) => o = FnOutcome("void", 0, FALSE)
 
